@@ -76,7 +76,6 @@ var hops = map[string]string{
 	"nested-closure":   `return (function () { return (function () { return %N() })() })()`,
 	"arguments-callee": `return (function () { if (arguments.length) { return %N() } return arguments.callee(1) })()`,
 	"host-function":    `return hostcall(%N)`,
-	"host-reflect":     `return hostreflect(%N)`,
 }
 
 var hopNames = func() []string {
@@ -131,7 +130,6 @@ func runRecur(c recurCase) (res jobResult) {
 		}
 		return v
 	})
-	_ = vm.Set("hostreflect", func(f func() (interface{}, error)) (interface{}, error) { return f() })
 	defs := c.script()
 	var err error
 	var val otto.Value
@@ -208,6 +206,12 @@ func runRecur(c recurCase) (res jobResult) {
 	}
 	res.Counts = map[string]int{"depth": int(depth)}
 	if c.Top == "catch" {
+		if err != nil && depth == 0 && harness.ErrName(err) == "RangeError" {
+			// the limit is so low that the harness's own wrapper frames (Otto.Call's scope, the function
+			// holding the try) exceed it before the try block is entered: nothing to catch with
+			res.Classes = append(res.Classes, "limit-below-wrapper-frames")
+			return res
+		}
 		if err != nil {
 			res.Wrong = append(res.Wrong, fmt.Sprintf("the script-level try/catch did not catch the error; the API call returned %v", err))
 			return res
@@ -232,7 +236,7 @@ func runRecur(c recurCase) (res jobResult) {
 
 var recurFacet = harness.Register(&harness.Facet[recurCase]{
 	Name: "recursion-vs-limit",
-	Rule: "rapid: a cycle of 1–4 global functions; f_i reaches f_{i+1} through a drawn mechanism (60: direct, call/apply/bind and their compositions, object-literal / defineProperty / inherited / with getters, setters, valueOf and toString coercion in unary, binary, relational, Date, Math, index, property-key, join, Error, RegExp, parseInt positions, forEach/map/filter/some/every/reduce/reduceRight/sort callbacks, eval direct and indirect, Function(), new, new on a bound function, JSON toJSON/replacer/reviver, String.replace replacers, try/finally, catch-rethrow, nested closures, arguments.callee, a host function calling back through Value.Call, a reflected Go func); every body recurses before it returns. Stack depth limit L ∈ {2…64} ∪ random ≤ 5000; entry through Run, Eval, Compile+Run, Otto.Call, Value.Call or Object.Call; either a script-level try/catch around the first call (must catch an instance of RangeError) or none (the API call must return a RangeError). Executed in a worker subprocess: oracle = the worker survives, no Go panic crosses the API, the error is the RangeError, and no more than L script activations were entered. Non-trivial = at least one activation was entered before the limit fired (depth ≥ 1; recursion is unbounded so the limit is always reached); distinct by (hops, L, top, entry)",
+	Rule: "rapid: a cycle of 1–4 global functions; f_i reaches f_{i+1} through a drawn mechanism (60: direct, call/apply/bind and their compositions, object-literal / defineProperty / inherited / with getters, setters, valueOf and toString coercion in unary, binary, relational, Date, Math, index, property-key, join, Error, RegExp, parseInt positions, forEach/map/filter/some/every/reduce/reduceRight/sort callbacks, eval direct and indirect, Function(), new, new on a bound function, JSON toJSON/replacer/reviver, String.replace replacers, try/finally, catch-rethrow, nested closures, arguments.callee, a host function calling back through Value.Call); every body recurses before it returns. Stack depth limit L ∈ {2…64} ∪ random ≤ 5000; entry through Run, Eval, Compile+Run, Otto.Call, Value.Call or Object.Call; either a script-level try/catch around the first call (must catch an instance of RangeError) or none (the API call must return a RangeError). Executed in a worker subprocess: oracle = the worker survives, no Go panic crosses the API, the error is the RangeError, and no more than L script activations were entered. Non-trivial = at least one activation was entered before the limit fired (depth ≥ 1; recursion is unbounded so the limit is always reached); distinct by (hops, L, top, entry)",
 	Quick:    500,
 	Thorough: 6000,
 	Gen: func(t *rapid.T) recurCase {
